@@ -95,8 +95,11 @@ pub fn gen_case(rng: &mut Rng, schema: &Schema, stats: &mut GenStats, known_defe
         let go = g.gen_query();
         let parsed = catch_unwind(AssertUnwindSafe(|| parse(schema, &go.text)));
         match parsed {
-            Err(_) => {
+            Err(e) => {
                 stats.frontend_panicked += 1;
+                // remember (message, query) so that callers can report frontend panics outside the known classes
+                let msg = panic_msg(e);
+                *stats.reject_kinds.entry(format!("PANIC|{}|{}", msg.chars().take(160).collect::<String>(), go.text)).or_insert(0) += 1;
                 continue;
             }
             Ok(Err(e)) => {
@@ -253,3 +256,4 @@ pub fn engine_class(c: &EngineCase) -> Option<String> {
     }
     None
 }
+
